@@ -14,6 +14,11 @@ var Guards = []Guard{
 	{"gd.notValidReturn", "if !rt.Validate1($x) {\n\treturn\n}\nrt.Sink1($x)"},
 	{"gd.noGuard", "if rt.Validate1($x) {\n}\nrt.Sink1($x)"},
 	{"gd.bothArms", "if rt.Validate1($x) {\n\trt.Sink1($x)\n} else {\n\trt.Sink1($x)\n}"},
+	{"gd.diamondJoin", "if rt.Validate1($x) {\n\trt.Sink3(\"c\")\n} else {\n\trt.Sink3(\"d\")\n}\nrt.Sink1($x)"},
+	{"gd.errDiamondJoin", "if e := rt.ValidateE1($x); e == nil {\n\trt.Sink3(\"c\")\n} else {\n\trt.Sink3(\"d\")\n}\nrt.Sink1($x)"},
+	{"gd.bypassElseIf", "if rt.Cond() {\n\tif !rt.Validate1($x) {\n\t\treturn\n\t}\n} else if rt.Cond() {\n\trt.Sink3(\"c\")\n}\nrt.Sink1($x)"},
+	{"gd.diamondLong", "if rt.Validate1($x) {\n\trt.Sink3(\"c\")\n} else {\n\tif rt.Cond() {\n\t\trt.Sink3(\"d\")\n\t}\n\trt.Sink3(\"e\")\n}\nrt.Sink1($x)"},
+	{"gd.notValidDiamond", "if !rt.Validate1($x) {\n\trt.Sink3(\"c\")\n} else {\n\trt.Sink3(\"d\")\n}\nrt.Sink1($x)"},
 	{"gd.elseArm", "if rt.Validate1($x) {\n} else {\n\trt.Sink1($x)\n}"},
 	{"gd.errReturn", "if e := rt.ValidateE1($x); e != nil {\n\treturn\n}\nrt.Sink1($x)"},
 	{"gd.errLogOnly", "if e := rt.ValidateE1($x); e != nil {\n\t_ = e\n}\nrt.Sink1($x)"},
